@@ -243,10 +243,16 @@ class Inspection:
         self.other = {"sst": [], "trash": []}
         self.logs = []
         self.dirs = {}
+        self.names = {"sst": [], "trash": []}        # brief mode: names only
+        self.older = {"mani": [], "verify": []}      # brief mode: ids of fragments not re-read
         cur = None
         for ln in lines:
             t = ln.split(" ")
-            if t[0] == "FRAG":
+            if t[0] == "FRAGID":
+                self.older[t[1]].append(t[2])
+            elif t[0] == "SSTNAME":
+                self.names[t[1]].append(t[2])
+            elif t[0] == "FRAG":
                 cur = [t[2], [], None]
                 self.frags[t[1]].append(cur)
             elif t[0] == "EDIT":
@@ -263,6 +269,7 @@ class Inspection:
                 d["strs"] = [s for s in d.get("strs", "").split(",") if s]
                 self.state[t[1]] = d
             elif t[0] == "SST":
+                self.names[t[1]].append(t[2])
                 if t[3] == "ERR":
                     self.files[t[1]][t[2]] = ("ERR", t[4] if len(t) > 4 else "?", [])
                 else:
@@ -273,6 +280,14 @@ class Inspection:
                 self.logs = [x for x in (t[1].split(",") if len(t) > 1 else []) if x]
             elif t[0] == "DIR":
                 self.dirs[t[1]] = [x for x in (t[2].split(",") if len(t) > 2 else []) if x]
+
+
+def parse_sst1(line):
+    """answer of the tool's `sst <path>`"""
+    t = line.split(" ")
+    if t[1] == "ERR":
+        return ("ERR", t[2] if len(t) > 2 else "?", [])
+    return (t[1], t[2], [parse_ent(x) for x in t[3:]])
 
 
 def fresh_root(tag):
